@@ -2744,7 +2744,14 @@ impl Node for XmlDocumentType {
     }
 
     fn parent_node(&self) -> Option<XmlNode> {
-        Some(XmlDocument::from(self.declaration.borrow().parent()).as_node())
+        // the declaration keeps no parent link: it is a child only while the document lists it.
+        let document = XmlDocument::from(self.declaration.borrow().parent()).as_node();
+        let id = self.declaration.borrow().id();
+        if document.child_nodes().iter().any(|v| v.id() == id) {
+            Some(document)
+        } else {
+            None
+        }
     }
 
     fn child_nodes(&self) -> XmlNodeList {
